@@ -556,8 +556,8 @@ Arguments BKwargs {V}.
 Arguments BNoMorePosOnly {V}.
 Arguments BNoMorePos {V}.
 Arguments b_init {V}.
-Arguments XOk {V A} a.
-Arguments XFail {V A} e.
+Arguments XOk {A} a.
+Arguments XFail {A} e.
 Arguments StarSeq {V}.
 Arguments StarNotIterable {V}.
 Arguments KwDict {V}.
